@@ -366,6 +366,17 @@ std::vector<std::pair<std::string, Bytes>> seeds() {
     { Bytes m = hdr(1, 1024); m += '\0'; put16(m, 1); put16(m, 1); for (int i = 0; i < 40; ++i) { m += '\0'; rrTail(m, 1, Bytes()); } v.push_back({"ancount 1024 with 40 empty records", m}); }
     { Bytes m = hdr(1, 65535); m += '\0'; put16(m, 1); put16(m, 1); for (int i = 0; i < 3; ++i) { m += '\0'; rrTail(m, 1, Bytes()); } v.push_back({"ancount 65535 with 3 empty records (truncations only)", m}); }
     { Bytes m = hdr(1, 1); m += '\0'; put16(m, 1); put16(m, 1); m += '\0'; rrTail(m, 12, Bytes("\0", 1)); v.push_back({"root names everywhere (well-formed)", m}); }
+    // names at the edge of the 255-octet wire limit / 256-octet text buffers: last label 61 (legal maximum), 62 and 63 octets,
+    // as question name, as pointer-compressed owner and as uncompressed PTR target (a 256-octet heap block in Squid)
+    for (int last : {61, 62, 63}) {
+        Bytes name;
+        for (int i = 0; i < 3; ++i) { name += (char)63; name += std::string(63, 'a' + i); }
+        name += (char)last; name += std::string(last, 'd'); name += '\0';
+        Bytes m = hdr(1, last == 61 ? 1 : 2); m += name; put16(m, 12); put16(m, 1);
+        putPtr(m, 12); rrTail(m, 12, name);          // with last == 61 this message is well-formed: compared field by field
+        if (last != 61) { m += (char)1; m += 'w'; putPtr(m, 12); rrTail(m, 12, Bytes("\xC0\x0C", 2)); }     // one more label in front: beyond every limit
+        v.push_back({"names with a last label of " + std::to_string(last) + " octets after three 63-octet labels", m});
+    }
     return v;
 }
 
